@@ -81,4 +81,10 @@ type CompactionTask struct {
 
 	// Output file path template
 	OutputPathTemplate string
+
+	// KeepTombstones is set when an older version of a key of the inputs may
+	// exist in a file that is not part of this compaction (a deeper level).
+	// Deletion markers must then survive the compaction whatever the
+	// tombstone filter says, or the older version would come back to life.
+	KeepTombstones bool
 }
